@@ -33,6 +33,9 @@ Step(s, ev) ==
     [] ev.ev = "CalibrateInvalid" -> Res(s, InvalidFails(ev), InvalidEx)
     [] ev.ev = "CallPairs"        -> Res(s, CallPairsFails(ev), {"C02.suite_call_" \o ev.method})
     [] ev.ev = "CallTransform"    -> Res(s, CallTransformFails(ev), {"C02.suite_call_transform"})
+    [] ev.ev = "CallMatrix"       -> Res(s, CallMatrixFails(ev), {"C02.suite_call_get_mahalanobis_matrix"})
+    [] ev.ev = "CallTuples"       -> Res(s, CallTuplesFails(ev), {IF ev.method = "predict" THEN "C04.suite_call_tuples_predict"
+                                                                  ELSE "C04.suite_call_tuples_decision"})
     [] ev.ev = "CallPredictPairs" -> Res(s, CallPredictFails(ev), {"C04.suite_call_predict"})
     [] ev.ev = "PredictPairs"    -> Res(s, PairsFails(s.thr, ev), PairsEx(ev))
     [] ev.ev = "PredictTriplets" -> Res(s, TripletsFails(ev), TripletsEx)
